@@ -4,7 +4,7 @@ import json
 import random
 import sys
 
-from . import query_replay, resolver_replay
+from . import core, query_replay, resolver_replay
 
 NAMEPOOL = ["a", "b", "c", "A", "ab", "a.b"]
 
@@ -42,6 +42,7 @@ def well_formed(par, ch):
     return True
 
 
+@core.safe_worker
 def history(args):
     """One history (under an overall deadline: a library call that never returns ends it)."""
     from . import core
